@@ -100,6 +100,12 @@ func (p vParty) MarshalJSON() ([]byte, error) {
 	if q.Fwd == nil {
 		q.Fwd = []vFwd{}
 	}
+	if q.Lmod == nil {
+		q.Lmod = []uint64{}
+	}
+	if q.Rmod == nil {
+		q.Rmod = []uint64{}
+	}
 	return json.Marshal(q)
 }
 
@@ -123,6 +129,10 @@ type vParty struct {
 	Net   []string  `json:"net"`
 	Fwd   []vFwd    `json:"fwd"`
 	Thaw  uint32    `json:"thaw"`
+	// ids of the adds that already carry a (not yet compacted) settle/fail:
+	// updateLog.modifiedHtlcs of the local resp. remote log
+	Lmod []uint64 `json:"lmod"`
+	Rmod []uint64 `json:"rmod"`
 }
 
 type vLine struct {
@@ -256,6 +266,12 @@ func vProjectLog(l *updateLog) []vEntry {
 	return res
 }
 
+func vSortedIDs(ids []uint64) []uint64 {
+	res := append([]uint64{}, ids...)
+	sort.Slice(res, func(i, j int) bool { return res[i] < res[j] })
+	return res
+}
+
 func vProject(lc *LightningChannel, out []vMsg) vParty {
 	p := vParty{
 		Lidx: lc.updateLogs.Local.logIndex, Lhtlc: lc.updateLogs.Local.htlcCounter,
@@ -263,6 +279,8 @@ func vProject(lc *LightningChannel, out []vMsg) vParty {
 		L: vProjectLog(lc.updateLogs.Local), R: vProjectLog(lc.updateLogs.Remote),
 		Net: []string{}, LC: []vCommit{}, RC: []vCommit{}, Fwd: vProjectFwd(lc),
 		Thaw: lc.channelState.ThawHeight,
+		Lmod: vSortedIDs(lc.updateLogs.Local.modifiedHtlcs.ToSlice()),
+		Rmod: vSortedIDs(lc.updateLogs.Remote.modifiedHtlcs.ToSlice()),
 	}
 	for e := lc.commitChains.Local.commitments.Front(); e != nil; e = e.Next() {
 		p.LC = append(p.LC, vProjectCommit(lc, e.Value))
